@@ -43,6 +43,8 @@ def interp_for(unit):
     contracts = {} if unit.name.startswith("dep_") else {NameRaisesContract.qualname: NameRaisesContract()}
     ip = make_interp(contracts=contracts)
     install_callback_env(ip)
+    from .lifecycle import install_datagram_env
+    install_datagram_env(ip)
     return ip
 
 
@@ -100,11 +102,30 @@ def units(tier):
         calls = ctx.ghost.callback_calls
         base = f"{PROP}/UdpClientProtocol/datagram_received"
         return [Obligation(base + "/hands_the_datagram_over_exactly_once", ctx, len(calls) == 1 and calls[0] is data),
+                Obligation(base + "/leaves_the_transport_open", ctx, t.state.get("closed") is False and
+                           not [e for e in ctx.ghost.events if e[0] == "close"]),
                 Obligation(base + "/handler_exception_propagates_unchanged", ctx, ob[0] == "ret" or ob[1].cls == "CallbackError"),
                 Obligation(base + "/assigns_nothing", ctx, not ctx.ghost.heap_writes and proto.attrs.get("transport") is t and
                            proto.attrs.get("_on_datagram") is h)]
     u["protocol"] = Unit("protocol", PROP, protocol, functions=[B + "UdpClientProtocol.datagram_received", B + "UdpClientProtocol.__init__",
                                                               B + "UdpClientProtocol.connection_made"])
+
+    for lc in (0, 1, "ge2", 159, 165, 168):
+        def foreign(ip, ctx, lc=lc):
+            # anything that is not a Switcher broadcast (spec.gate_spec false), of any length: never delivered, no trace
+            # (the three broadcast lengths are also taken as exact classes: every byte symbolic, magic wrong)
+            from .c06 import mk_datagram
+            m = mk_datagram(ctx, lc)
+            g = ip.call_function(func("spec.gate_spec"), [m], {}, ctx)
+            t = ip.truth(g, ctx)
+            ctx.assume((not t) if isinstance(t, bool) else z3.Not(t))
+            cb = EnvObj("callback", may_raise=True)
+            ob = outcome_of(lambda: ip.call_function(func(PARSE), [cb, m], {}, ctx))
+            base = f"{PROP}/foreign_len_{lc}"
+            return [Obligation(base + "/never_delivered", ctx, len(ctx.ghost.callback_calls) == 0),
+                    Obligation(base + "/no_exception_no_trace", ctx, ob[0] == "ret" and not ctx.ghost.heap_writes and not ctx.ghost.module_writes
+                               and not ctx.ghost.warnings)]
+        u[f"foreign_{lc}"] = Unit(f"foreign_{lc}", PROP, foreign, functions=[PARSE, B + "DatagramParser.is_switcher_originator"])
 
     def protocol_other(ip, ctx):
         # error_received / connection_lost never call the handler and assign nothing
@@ -114,9 +135,12 @@ def units(tier):
         k = ctx.fork(4)
         meth, arg = [("error_received", None), ("error_received", ExcVal("OSError", ("x",))), ("connection_lost", None),
                      ("connection_lost", ExcVal("OSError", ("x",)))][k]
+        t = EnvObj("transport", port=1, closed=False)
+        proto.attrs["transport"] = t
         ob = outcome_of(lambda: ip.call_function(proto.cls.find_method(meth), [proto, arg], {}, ctx))
         base = f"{PROP}/UdpClientProtocol/{meth}_{'exc' if arg else 'none'}"
-        return [Obligation(base + "/no_delivery_no_state_change", ctx, ob[0] == "ret" and not ctx.ghost.callback_calls and not ctx.ghost.heap_writes)]
+        return [Obligation(base + "/no_delivery_no_state_change", ctx, ob[0] == "ret" and not ctx.ghost.callback_calls and not ctx.ghost.heap_writes),
+                Obligation(base + "/leaves_the_transport_open", ctx, t.state.get("closed") is False)]
     u["protocol_other"] = Unit("protocol_other", PROP, protocol_other, functions=[B + "UdpClientProtocol.error_received", B + "UdpClientProtocol.connection_lost"])
 
     def canary(ip, ctx):
